@@ -181,6 +181,17 @@ def canon_tree(t, op, n_expected=None):
 # ----------------------------------------------------------------------------
 # apply
 # ----------------------------------------------------------------------------
+def _mod_unique(idx, g, dim):
+    """Menu indices folded into the grid's range, duplicates dropped, order kept."""
+    n = {"n_face": lambda: g.n_face, "n_node": lambda: g.n_node, "n_edge": lambda: g.n_edge}[dim]()
+    out, seen = [], set()
+    for x in idx:
+        if x % n not in seen:
+            seen.add(x % n)
+            out.append(x % n)
+    return out
+
+
 def apply(W, op):
     """Perform the public call; return the canonical outcome.  Exceptions propagate."""
     name = op["op"]
@@ -228,14 +239,14 @@ def apply(W, op):
         g.chunk(n_node=op.get("n_node", -1), n_edge=op.get("n_edge", -1), n_face=op.get("n_face", -1))
         return None
     if name == "isel":
-        idx = op["idx"]
+        idx = _mod_unique(op["idx"], g, op["dim"])
         if op.get("all"):
             idx = list(range(g._ds.sizes[op["dim"]] if op["dim"] != "n_edge" else g.n_edge))
         sub = g.isel(**{op["dim"]: (idx if not op.get("scalar") else idx[0])})
         return C.canon_grid(sub)
     if name == "isel_attr":
         # a derived quantity read on a subset: must not depend on what the PARENT had derived
-        idx = op["idx"]
+        idx = _mod_unique(op["idx"], g, op["dim"])
         sub = g.isel(**{op["dim"]: idx})
         v = getattr(sub, op["name"])
         return C.canon(v)
